@@ -3,6 +3,7 @@
 from __future__ import annotations
 
 import ast
+import collections
 import re
 import io
 import json
@@ -595,6 +596,93 @@ def stage_targeted(ctx: Ctx):
                         where = 'at-end' if idx == n else 'inside'
                         ctx.violation(f'comment-lost|insert-into-multiline-sequence|{where}', 'a pure insertion (nothing replaced) into a multi-line sequence removed the line comment of a neighbouring element',
                                       {'before': src, 'after': root.src, 'action': how, 'field': fld, 'idx': idx, 'lost': [c for c in want if c not in have]})
+    # (e) multi-line code put into unparenthesized statement-level sequences whose lines hold '#' INSIDE string literals (the line gets a continuation backslash: what
+    #     follows the last code of the line must not be taken for a comment)
+    def code_toks(t):
+        try:
+            return [x.string for x in _tk.generate_tokens(_io.StringIO(t).readline) if x.type not in (_tk.COMMENT, _tk.NL, _tk.NEWLINE, _tk.INDENT, _tk.DEDENT, _tk.ENDMARKER)]
+        except Exception:
+            return None
+    hash_progs = [('del cfg.colors["#fff"], cfg.tags.html["#id"], old\n', 'body[0]', 'targets'), ('a = b["#x"], c.d.e["#y"], f\n', 'body[0].value', 'elts'),
+                  ('def r():\n    return x["#"], y.z["# q"], w\n', 'body[0].body[0].value', 'elts'), ('for i in a["#"], b.c["#2"], d: pass\n', 'body[0].iter', 'elts'),
+                  ('x = "#a", y.z("#b"), w  # real comment\n', 'body[0].value', 'elts'), ('del env.vars["# HOME"], env.shell.aliases.table["ll # long"], junk\n', 'body[0]', 'targets'),
+                  ('import a.b as c, d as e, f\n', 'body[0]', 'names'), ('global g1, g2, g3\n', 'body[0]', 'names'), ('with a["#"] as b, c.d["#e"]: pass\n', 'body[0]', 'items')]
+    for src, path, fld in hash_progs:
+        probe = fst.FST(src, 'exec')
+        n = len(getattr(probe.child_from_path(path), fld))
+        new = {'names': ('n1,\nn2' if 'import' not in src else 'n1 as n2,\nn3'), 'items': 'n1 as n2,\nn3'}.get(fld, 'x,\ny')
+        for i in range(n + 1):
+            for j in range(i, n + 1):
+                root = fst.FST(src, 'exec')
+                node = root.child_from_path(path)
+                elems = [e.src if hasattr(e, 'src') else str(e) for e in getattr(node, fld)]
+                try:
+                    node.put_slice(new, i, j, fld)
+                except Exception:
+                    continue
+                ctx.tick(('targeted-e', src, i, j), 'op:targeted-hash-in-string')
+                after = root.src
+                ta = code_toks(after)
+                want_kept = [t for k, e in enumerate(elems) if not (i <= k < j) for t in (code_toks(e) or [])]
+                ok = ta is not None
+                if ok:
+                    pool = collections.Counter(ta)
+                    ok = all(pool[t] >= c for t, c in collections.Counter(want_kept).items())
+                if ok:
+                    try:
+                        ast.parse(after)
+                    except SyntaxError:
+                        ok = False
+                if not ok or comments(after) != comments(src):
+                    ctx.violation('text|targeted|hash-in-string-line-continuation', 'a multi-line put into an unparenthesized sequence damaged untouched elements on a line that holds "#" inside a string',
+                                  {'before': src, 'after': after, 'field': fld, 'start': i, 'stop': j, 'put': new})
+    # (f) several edits through ONE single-item view: after the item is cut the view is empty, a following replace is a pure insertion there and a remove / second cut a no-op;
+    #     the neighbouring items, their separators and their comments stay
+    view_progs = [('d = {\n    "a": 1,  # first\n    "b": 2,  # second\n    "c": 3,  # third\n}\n', 'body[0].value', '_all', '"x": 9'),
+                  ('def g():\n    global a, b, c  # names\n    pass\n', 'body[0].body[0]', 'names', 'x'),
+                  ('def h(\n    a,  # first\n    b=1,  # second\n    *c,  # third\n): pass\n', 'body[0].args', '_all', 'x'),
+                  ('v = [\n    a,  # first\n    b,  # second\n    c,  # third\n]\n', 'body[0].value', 'elts', 'x'),
+                  ('match m:\n    case {1: a,  # first\n          2: b,  # second\n          3: c}: pass\n', 'body[0].cases[0].pattern', '_all', '9: x'),
+                  ('z = p < q <= r > s\n', 'body[0].value', '_all', None)]
+    for src, path, fld, new in view_progs:
+        probe = fst.FST(src, 'exec')
+        n = len(getattr(probe.child_from_path(path), fld))
+        for i in range(n):
+            for second in ('replace', 'remove', 'cut', 'len'):
+                if second == 'replace' and new is None:
+                    continue
+                root = fst.FST(src, 'exec')
+                view = getattr(root.child_from_path(path), fld)
+                try:
+                    item = view.at(i) if hasattr(view, 'at') else view[i:i + 1]
+                    if not hasattr(item, 'cut') or isinstance(item, fst.FST):
+                        item = view[i:i + 1]
+                    item.cut()
+                    after_cut = root.src
+                    if second == 'replace':
+                        item.replace(new, one=False)
+                    elif second == 'remove':
+                        item.remove()
+                    elif second == 'cut':
+                        item.cut()
+                    else:
+                        k = len(item)
+                        if k != 0:
+                            ctx.violation('view-after-cut|nonempty', 'a view whose only item was cut still reports items', {'before': src, 'field': fld, 'idx': i, 'len': k})
+                            continue
+                except Exception as e:
+                    ctx.dist['targeted-f:refused'] = ctx.dist.get('targeted-f:refused', 0) + 1
+                    continue
+                ctx.tick(('targeted-f', src, i, second), 'op:targeted-view-reuse')
+                after = root.src
+                if second in ('remove', 'cut', 'len') and after != after_cut:
+                    ctx.violation(f'view-after-cut|{second}', 'an edit through an emptied single-item view changed the source', {'before': src, 'field': fld, 'idx': i, 'after_cut': after_cut, 'after': after})
+                elif second == 'replace':
+                    ca, cc = comments(after), comments(after_cut)
+                    ta, tc = code_toks(after), code_toks(after_cut)
+                    if ta is None or tc is None or ca is None or any(c not in ca for c in cc) or any(collections.Counter(ta)[t] < c for t, c in collections.Counter(tc).items() if t not in (',',)):
+                        ctx.violation('comment-lost|insert-into-multiline-sequence|at-end' if i == n - 1 and ta is not None and tc is not None and all(collections.Counter(ta)[t] >= c for t, c in collections.Counter(tc).items() if t != ',') else 'view-after-cut|replace',
+                                      'a replace through an emptied single-item view removed neighbouring items or comments', {'before': src, 'field': fld, 'idx': i, 'after_cut': after_cut, 'after': after})
     # (b)
     lines = ['d = {{"ключ": {E}, "k": [y, z]}}  # коммент', 'r = "naïve café" + {E} * w', 'f("日本語", {E}, kw={E2})', 'ü = [é, {E}, "ö"]']
     for tmpl in lines:
